@@ -1,7 +1,7 @@
 (* C13, history level: the RepeatBand bounds hold after ANY history of receive-path operations, ticks and automata API calls.
    Statements only: each theorem restates the full type of a lemma proved in coq/proofs and is closed by
    `exact`; Print Assumptions beneath.  Regenerate with bin/genprops.py after a lemma changes. *)
-From LLTD Require Import Automata Sys AutomataHistory.
+From LLTD Require Import Automata Sys AutomataHistory SpecExec ExpectSound.
 
 Theorem C13_after_any_history :
   forall (af sf : N -> bool) (junk : N) (ops : list op) (y : sys) (w : world),
@@ -41,3 +41,12 @@ Theorem C13_tick_after_any_history :
   b_hts (a_band (aset_of y' ctx)) = 0%N \/ (w_now w' < b_hts (a_band (aset_of y' ctx)))%N).
 Proof. exact C13_history_tick. Qed.
 Print Assumptions C13_tick_after_any_history.
+
+Theorem C13_runtime_expectation_sound :
+  forall (now : N) (b : band),
+  (b_r b < W32)%N ->
+  (SpecAutomata.ALPHA <= b_ni b <= SpecAutomata.NMAX)%N ->
+  b_ni (band_update now b) = ni_expect (b_r b) (b_begun b) (b_ni b) /\
+  (SpecAutomata.ALPHA <= ni_expect (b_r b) (b_begun b) (b_ni b) <= SpecAutomata.NMAX)%N.
+Proof. exact ni_expect_sound. Qed.
+Print Assumptions C13_runtime_expectation_sound.
